@@ -553,7 +553,14 @@ def c09(tier):
         for kind in ("payers-int", "payers-div", "foreign", "hsa"):
             for rep_k in range(2 if tier == "quick" else 8):
                 rng = random.Random("lim-%d-%s-%d-%d" % (year, kind, rep_k, sd))
-                p = scenarios.Profile(rng, year=year, nc=False)
+                # a plain return otherwise (the first repetition), so that nothing else keeps it from solving
+                if rep_k == 0:
+                    p = scenarios.Profile(rng, year=year, nc=False, dependents=0, itemize=False, sched1_adjust=False, wage_scale=120000, ira=False,
+                                          qualified_div=False, foreign_tax=False, hsa_you=False, hsa_spouse=False, f8606=False, div_heavy=False,
+                                          dup_w2=False, plain_payers=True)
+                    p.n = {"w-2": 1, "1099-int": 0, "1099-div": 0, "1099-r": 0, "1099-g": 0, "1098": 0, "1099-oid": 0}
+                else:
+                    p = scenarios.Profile(rng, year=year, nc=False)
                 ov = {}
                 if kind == "payers-int":
                     p.n["1099-int"] = 15
